@@ -448,6 +448,94 @@ def _sym(self, ir, m, Z0, dens):
 T.Translator.sym = _sym
 
 
+
+# ---- port-wise interconnections (session 4) ------------------------------------
+# TwoPort.series/parallel/hybrid/inverse_hybrid build Ser2/Par2/Hybrid2/InverseHybrid2, whose
+# __init__ ADD the Z/Y/H/G matrices of the arguments.  props/C08.v proves that the sum matrix has
+# exactly the port relation of the interconnection (series_Z_spec ...).  This ties those theorems
+# to the code: (a) fail-closed shape check of the four methods and four constructors,
+# (b) the real methods on random rational matrices against the exact sum.
+CONN = [('series', 'Ser2', 'Z'), ('parallel', 'Par2', 'Y'), ('hybrid', 'Hybrid2', 'H'), ('inverse_hybrid', 'InverseHybrid2', 'G')]
+
+
+def _isfrac(x):
+    try:
+        Fraction(x)
+        return True
+    except (ValueError, ZeroDivisionError):
+        return False
+
+def conn_shape(repo):
+    """Return list of (name, message) for every interconnection whose source no longer has the modelled shape."""
+    import ast
+    path = os.path.join(repo, 'lcapy', 'twoport.py')
+    tree = ast.parse(open(path).read())
+    classes = {n.name: n for n in tree.body if isinstance(n, ast.ClassDef)}
+    bad = []
+
+    def fn_of(cls, name):
+        c = classes.get(cls)
+        if c is None:
+            return None
+        for n in c.body:
+            if isinstance(n, ast.FunctionDef) and n.name == name:
+                return n
+        return None
+    for meth, cls, K in CONN:
+        nm = 'conn_shape_%s' % cls
+        f = fn_of('TwoPort', meth)
+        if f is None:
+            bad.append((nm, 'TwoPort.%s not found' % meth))
+            continue
+        rets = [n for n in ast.walk(f) if isinstance(n, ast.Return)]
+        if len(rets) != 1 or ast.unparse(rets[0]) != 'return %s(self, TP)' % cls:
+            bad.append((nm, 'TwoPort.%s does not return %s(self, TP): %s' % (meth, cls, [ast.unparse(r) for r in rets])))
+            continue
+        c = classes.get(cls)
+        if c is None or [ast.unparse(b) for b in c.bases] != ['TwoPort%sModel' % K]:
+            bad.append((nm, 'class %s is not a TwoPort%sModel' % (cls, K)))
+            continue
+        init = fn_of(cls, '__init__')
+        if init is None:
+            bad.append((nm, '%s.__init__ not found' % cls))
+            continue
+        src = [ast.unparse(n) for n in init.body]
+        want_first = '%s = arg.%sparams' % (K, K)
+        loops = [n for n in init.body if isinstance(n, ast.For)]
+        okk = (want_first in src and 'arg = args[0]' in src and len(loops) == 1
+               and ast.unparse(loops[0].target) == 'arg' and ast.unparse(loops[0].iter) == 'args[1:]'
+               and '%s += arg.%sparams' % (K, K) in [ast.unparse(n) for n in loops[0].body]
+               and not [n for n in ast.walk(init) if isinstance(n, (ast.Assign, ast.AugAssign))
+                        and K in [ast.unparse(t) for t in (n.targets if isinstance(n, ast.Assign) else [n.target])]
+                        and ast.unparse(n) not in (want_first, '%s += arg.%sparams' % (K, K))])
+        sup = [n for n in ast.walk(init) if isinstance(n, ast.Call) and ast.unparse(n.func).startswith('super(')
+               and ast.unparse(n.func).endswith('.__init__')]
+        okk = okk and len(sup) == 1 and sup[0].args and ast.unparse(sup[0].args[0]) == K
+        if not okk:
+            bad.append((nm, '%s.__init__ no longer has the shape "%s; for arg in args[1:]: %s += arg.%sparams; super().__init__(%s, ...)"'
+                        % (cls, want_first, K, K, K)))
+    return bad
+
+
+def conn_cases(rng, n):
+    cs = []
+    for meth, cls, K in CONN:
+        for _ in range(n):
+            def q():
+                v = Fraction(rng.randint(-9, 9), rng.randint(1, 5))
+                return v if v != 0 else Fraction(1, 3)
+            cs.append([meth, K, [str(q()) for _ in range(4)], [str(q()) for _ in range(4)]])
+    return cs
+
+
+def conn_run(cases):
+    env = dict(os.environ, PYTHONPATH=core.REPO, PYTHONHASHSEED='0')
+    p = subprocess.run([core.PY, '-W', 'ignore', os.path.join(core.VERIF, 'tools', 'impl_conn.py')],
+                       input=json.dumps(cases), capture_output=True, text=True, env=env, cwd=core.VERIF, timeout=600)
+    if p.returncode != 0:
+        return None, p.stderr[-600:]
+    return json.loads(p.stdout.strip().splitlines()[-1]), ''
+
 # ---- implementation runs -------------------------------------------------------
 def run_impl(cases, nproc=None):
     nproc = nproc or core.NCPU
@@ -664,6 +752,40 @@ def run(tier='quick', replay=None):
                     'alternating numeric construction and .generic()+substitution; non-trivial = the real property '
                     'returned a value (no exception); distinct = distinct (class, property, matrix, Z0, mode)') % n_per
 
+        # 3b. port-wise interconnections: source shape (fail-closed) + the real methods against the exact sum
+        conn_viol = []
+        if not replay:
+            shape_bad = conn_shape(core.REPO)
+            ccs = conn_cases(rng, 3 if tier == 'quick' else 25)
+            cres, cerr = conn_run(ccs)
+            res.obligations += len(CONN)
+            res.discharged += len(CONN) - len(shape_bad)
+            concrete = set()
+            if cres is None:
+                res.failed_obl.append(('conn_correspondence', 'tools/impl_conn.py', cerr))
+                res.obligations += 1
+            else:
+                clsof = {m: c for m, c, _ in CONN}
+                for cc, r in zip(ccs, cres):
+                    want = [str(Fraction(x) + Fraction(y)) for x, y in zip(cc[2], cc[3])]
+                    got = None if 'error' in r else [str(Fraction(x)) if _isfrac(x) else x for x in r['params']]
+                    res.count('conn_' + cc[0])
+                    if 'error' in r or r.get('cls') != clsof[cc[0]] or got != want:
+                        if clsof[cc[0]] not in concrete:
+                            concrete.add(clsof[cc[0]])
+                            conn_viol.append({'key': 'TwoPort.%s' % cc[0],
+                                              'what': 'TwoPort.%s of two %s models does not return the %s whose %s matrix is the sum' % (cc[0], cc[1], clsof[cc[0]], cc[1]),
+                                              'replay': {'spec': [cc], 'expected_params': want, 'lcapy': r}, 'found_input': True,
+                                              'how': "echo '<replay.spec as JSON>' | PYTHONPATH=/repo /venv/bin/python tools/impl_conn.py"})
+                    else:
+                        res.add_case(json.dumps(['conn'] + cc), True, None)
+            for nm, msg in shape_bad:
+                if nm.replace('conn_shape_', '') in concrete:
+                    continue
+                res.failed_obl.append((nm, 'lcapy/twoport.py', msg))
+            res.extra['interconnections'] = {'shape_checked': [c for _, c, _ in CONN], 'shape_failures': [n for n, _ in shape_bad],
+                                             'numeric_cases': len(ccs)}
+
         # 4. decide
         by_key = {}
         for ce in res.counterexamples:
@@ -700,6 +822,7 @@ def run(tier='quick', replay=None):
                                'case': c, 'lcapy': d['lcapy'], 'found_input': False,
                                'correspondence': 'Gen.TwoPortGen.%s_%s vs lcapy.twoport' % (c['kind'], c['prop'])})
             by_key[k] = d
+        violations.extend(conn_viol)
         return core.finish(res, violations)
     finally:
         if not os.environ.get('VERIF_KEEP'):
